@@ -80,7 +80,8 @@ PROPS = {
             "paper_steps": ["C18.config_independent: every contract is proved for symbolic allow_list / usage_db / blur_usage / log_requests, and no postcondition about the channel tables, the outboxes or connection state mentions them (except handle_list's answer): equal runs (DESIGN 9)"]},
     "C11": {"census": [DEPENDS.registry_free, CENSUS.heap_fields], "canaries": [DEPENDS.canary], "lemmas": [LEMMAS.induction_base],
             "functions_all": ["server_websocket.WebSocketServer." + h for h in DEPENDS.EVENTS] + [
-                "server_websocket.WebSocketServer.onClose", "server.Server.get_app", "server.AppNamespace.open_mailbox"],
+                "server_websocket.WebSocketServer.onClose", "server.Server.get_app", "server.AppNamespace.open_mailbox",
+                "server.Server.prune_all_apps", "server.AppNamespace.prune", "server_tap.makeService.<locals>.expire"],
             "assumptions": A_PY + A_SQL + A_FW, "conditioned_on": ["F1"],
             "paper_steps": ["C11.simulation: the relation 'same database, same connections, same Sub, both heaps satisfy the heap invariants' is preserved by every event because every client-visible conjunct of every handler postcondition is free of registry contents (census.depends.*), the contracts are exact (a post-state is determined up to the choice of fresh rowids / object references), and related states give equal frames",
                             "restart = heap reset to empty with all connections dead: every heap invariant is quantified over alive connections / registered objects and holds vacuously",
